@@ -95,6 +95,53 @@ def repo_hash():
     return h.hexdigest()[:20]
 
 
+OBJCACHE = os.environ.get("VERIF_OBJCACHE", os.path.join(VERIF, "build", "objcache"))
+_HDR_HASH = {}
+
+
+def headers_hash():
+    """hash of every header of the repository tree (relative path + content): part of the key of every object"""
+    if REPO not in _HDR_HASH:
+        h = hashlib.sha256()
+        for sub in ("src", "include"):
+            for f in _tree_files(REPO, sub):
+                if f.endswith((".hpp", ".h")):
+                    h.update(os.path.relpath(f, REPO).encode())
+                    h.update(b"\0")
+                    with open(f, "rb") as fh:
+                        h.update(fh.read())
+                    h.update(b"\0")
+        _HDR_HASH[REPO] = h.hexdigest()[:20]
+    return _HDR_HASH[REPO]
+
+
+def _cached_obj(variant, name, *keyparts):
+    """path of an object file in the content-addressed cache shared by all build directories: an object is a
+    function of its source text, of all repository (and harness) headers and of the flags, never of the path
+    of the tree it was compiled from, so scratch copies with a one-file change recompile one file"""
+    d = os.path.join(OBJCACHE, variant)
+    os.makedirs(d, exist_ok=True)
+    return os.path.join(d, "%s-%s.o" % (name, _sha(*keyparts)))
+
+
+def _prune_cache(variant, max_bytes=8 << 30):
+    d = os.path.join(OBJCACHE, variant)
+    try:
+        ents = [(os.path.getmtime(os.path.join(d, e)), os.path.getsize(os.path.join(d, e)), os.path.join(d, e))
+                for e in os.listdir(d)]
+    except OSError:
+        return
+    ents.sort(reverse=True)
+    tot = 0
+    for mt, sz, path in ents:
+        tot += sz
+        if tot > max_bytes and time.time() - mt > 3600:
+            try:
+                os.unlink(path)
+            except OSError:
+                pass
+
+
 def lib_sources():
     src = []
     for f in _tree_files(REPO, "src"):
@@ -169,8 +216,12 @@ def ensure_lib(variant):
     os.makedirs(libdir, exist_ok=True)
     jobs = []
     objs = []
+    hh = headers_hash()
+    fl = " ".join(v["flags"])
     for s in lib_sources():
-        o = os.path.join(libdir, os.path.relpath(s, REPO).replace("/", "_")[:-4] + ".o")
+        rel = os.path.relpath(s, REPO)
+        with open(s, "rb") as fh:
+            o = _cached_obj(variant, rel.replace("/", "_")[:-4], fh.read(), rel, hh, fl, v["cxx"])
         objs.append(o)
         jobs.append(([v["cxx"]] + v["flags"] + INC + ["-c", s, "-o", o], o))
     _compile_many(jobs)
@@ -179,7 +230,13 @@ def ensure_lib(variant):
     if rc != 0:
         raise BuildError(txt)
     os.replace(tmp, lib)
+    for o in objs:
+        try:
+            os.utime(o)
+        except OSError:
+            pass
     _prune(vdir, "lib-" + key, keep=2)
+    _prune_cache(variant)
     return libdir, key
 
 
@@ -199,22 +256,21 @@ def ensure(target):
                 hh.update(f.encode())
                 hh.update(open(os.path.join(HARNESS, f), "rb").read())
         hkey = hh.hexdigest()[:12]
-        objdir = os.path.join(libdir, "hobj")
-        os.makedirs(objdir, exist_ok=True)
+        rhh = headers_hash()
+        fl = " ".join(v["flags"]) + " " + v["cxx"]
         jobs, objs = [], []
         optional = set()
         for s in hsrcs:
             p = os.path.join(HARNESS, s)
-            k = _sha(open(p, "rb").read(), hkey, " ".join(xflags))
-            o = os.path.join(objdir, "%s-%s.o" % (s[:-4], k))
+            o = _cached_obj(variant, "h-" + s[:-4], open(p, "rb").read(), hkey, rhh, " ".join(xflags), fl)
             objs.append(o)
             if s.startswith(("ops_", "tops_")) and os.environ.get("VERIF_STRICT_OPS") != "1":
                 optional.add(o)
             jobs.append(([v["cxx"]] + v["flags"] + xflags + INC + ["-c", p, "-o", o], o))
         for s in rsrcs:
             p = os.path.join(REPO, s)
-            k = _sha(" ".join(xflags), target)
-            o = os.path.join(objdir, "%s-%s.o" % (os.path.basename(s)[:-4], k))
+            o = _cached_obj(variant, "r-" + os.path.basename(s)[:-4], open(p, "rb").read(), rhh,
+                            " ".join(xflags), target, fl)
             objs.append(o)
             jobs.append(([v["cxx"]] + v["flags"] + xflags + INC + ["-c", p, "-o", o], o))
         failed = _compile_many(jobs, optional)
